@@ -185,6 +185,37 @@ theorem formatter_output_reparses (cfg : Cfg) (hi : IndentWS cfg) (toks : List T
     simp only [St.root, rootOfStack, Option.map_some]
     rw [cskel_outRoot cfg hi n st sc kids hs]
 
+/-- the token sequence of a strict single-root document: doctype declaration, then the tokens of the tree — what
+    `lexStrict` returns on every serialisation of such a document (C01) -/
+def strictToks (dt : Option Str) (u : FNode) : List Tok := (dtToks dt ++ u.toks).map Tok.ofToken
+
+/-- the plain parser builds the tree from its token sequence -/
+theorem plain_feed_strictToks (dt : Option Str) (hdt : DtOK dt) (n : Str) (st : AStore) (sc : Bool)
+    (kids : List FNode) (hs : (FNode.elem n st sc kids).Strict) :
+    Plain.feed (strictToks dt (.elem n st sc kids)) = .ok ⟨[], some (FNode.elem n st sc kids).toNode, dt, 0, 0⟩ := by
+  have hrun : Plain.run (strictToks dt (.elem n st sc kids)) {}
+      = .ok ⟨[], some (FNode.elem n st sc kids).toNode, dt, 0, 0⟩ := by
+    unfold strictToks
+    rw [List.map_append, plain_run_dt dt hdt]
+    have := plain_root n st sc kids (strict_buildable _ hs) dt 0 0 []
+    simp only [List.append_nil] at this
+    rw [this]; rfl
+  unfold Plain.feed
+  rw [hrun]
+
+/-- **C11 (string level, token form).**  For every strict single-root document tree `u` (any size, any depth),
+    every doctype and every formatter class: feed the formatter the token sequence of the document; its output
+    text lexes, and the plain parser builds from it a document with the same doctype and the tree of `u` modulo
+    formatting. -/
+theorem formatter_roundtrip_strict (cfg : Cfg) (hi : IndentWS cfg) (dt : Option Str) (hdt : DtOK dt)
+    (n : Str) (st : AStore) (sc : Bool) (kids : List FNode) (hs : (FNode.elem n st sc kids).Strict)
+    (hn : n ≠ wrapper) (hnw : NoWrapperStart (strictToks dt (.elem n st sc kids))) :
+    ∃ out toks' ps', format cfg (strictToks dt (.elem n st sc kids)) = .ok out ∧ lexStrict out = some toks' ∧
+      Plain.feed (toks'.map Tok.ofToken) = .ok ps' ∧ ps'.doctype = dt ∧
+      ps'.root.map cskel = some (cskel (FNode.elem n st sc kids).toNode) := by
+  have hp := plain_feed_strictToks dt hdt n st sc kids hs
+  exact formatter_output_reparses cfg hi _ hnw _ hp n st sc kids rfl (fun e => absurd e hn) hs hdt
+
 /-! #### non-vacuity -/
 
 /-- a document with a nested preformatted span, text before the root's end and an implicit close -/
@@ -258,6 +289,13 @@ example : ∃ out toks' ps', format (mkCfg .slim (.int 4) true) multiToks = .ok 
   formatter_output_reparses (mkCfg .slim (.int 4) true) (by decide) multiToks (by decide)
     ⟨[], some (FNode.elem wrapper {} false multiKids).toNode, some (str "doctype html"), 0, 0⟩ (by rfl) _ _ _ _ rfl
     (by decide) (by simp only [multiKids, FNode.Strict, StrictL]; decide) (by decide)
+
+/-- `formatter_roundtrip_strict` on the raw-text document (slim-mini class) -/
+example : ∃ out toks' ps', format (mkCfg .slimMini .dflt true) (strictToks (some (str "DOCTYPE html")) rawTree) = .ok out ∧
+    lexStrict out = some toks' ∧ Plain.feed (toks'.map Tok.ofToken) = .ok ps' ∧
+    ps'.doctype = some (str "DOCTYPE html") ∧ ps'.root.map cskel = some (cskel rawTree.toNode) :=
+  formatter_roundtrip_strict (mkCfg .slimMini .dflt true) (by decide) _ (by decide) _ _ _ _
+    (by simp only [FNode.Strict, StrictL]; decide) (by decide) (by decide)
 
 /-- the output texts in question -/
 example : okIs (format (mkCfg .slim (.int 4) true) multiToks)
